@@ -954,6 +954,7 @@ func (r *PipelineRunner) cancelJobInternal(id uuid.UUID) error {
 
 	if job.Start == nil {
 		job.markAsCanceled()
+		r.removeFromWaitList(job)
 
 		log.
 			WithField("component", "runner").
@@ -990,6 +991,25 @@ func (r *PipelineRunner) cancelJobInternal(id uuid.UUID) error {
 	})()
 
 	return nil
+}
+
+// removeFromWaitList removes a job that will not be started from the wait list (keeping the order of the other jobs) and stops its start timer
+func (r *PipelineRunner) removeFromWaitList(job *PipelineJob) {
+	if job.startTimer != nil {
+		job.startTimer.Stop()
+		job.startTimer = nil
+	}
+
+	waitList := r.waitListByPipeline[job.Pipeline]
+	for i, queuedJob := range waitList {
+		if queuedJob == job {
+			r.waitListByPipeline[job.Pipeline] = append(waitList[:i:i], waitList[i+1:]...)
+			break
+		}
+	}
+
+	// The head of the wait list might have changed, so other jobs could be eligible to start
+	r.startJobsOnWaitList(job.Pipeline)
 }
 
 func (r *PipelineRunner) StartDelayedJob(id uuid.UUID) {
